@@ -747,6 +747,13 @@ fn export<'tcx>(tcx: TyCtxt<'tcx>) -> J {
                 if let Some(parent) = tcx.opt_parent(did) {
                     o.push(("parent".into(), J::S(path(tcx, parent))));
                 }
+                if let Ok(alloc) = tcx.eval_static_initializer(did) {
+                    let a = alloc.inner();
+                    if a.len() <= (1 << 16) && a.provenance().ptrs().is_empty() {
+                        let bytes = a.inspect_with_uninit_and_ptr_outside_interpreter(0..a.len());
+                        o.push(("val".into(), obj! {"raw" => hex(bytes), "size" => a.len() as i128}));
+                    }
+                }
                 {
                     let body = tcx.mir_for_ctfe(did);
                     let env = TypingEnv::post_analysis(tcx, did);
